@@ -10,15 +10,13 @@
 (* the facts the code checks (construction facts of the harness); hashes,   *)
 (* txids, keys and scripts are interned ids of which only equality is used. *)
 (***************************************************************************)
-EXTENDS Integers, Sequences, FiniteSets, TLC
+EXTENDS Integers, Sequences, FiniteSets, TLC, BridgeArith
 
 CONSTANTS
   MaxDepositTx,      \* per-block caps of the delivery queue (8 / 8 in the code)
   MaxWithdrawalTx,
   Network            \* configured Bitcoin network name
 
-Dust == 1000
-MaxTaxBP == 10000
 CoinbaseMaturity == 100
 
 NoWd == [status |-> "none", addr |-> "", amount |-> 0, maxPrice |-> 0, hasReceipt |-> FALSE, rTxid |-> "", rTxout |-> 0, rAmount |-> 0]
@@ -31,18 +29,6 @@ Min(a, b) == IF a < b THEN a ELSE b
 Range(s) == { s[i] : i \in DOMAIN s }
 WdOf(S, id) == IF id \in DOMAIN S.wd THEN S.wd[id] ELSE NoWd
 SetWd(S, id, w) == [S EXCEPT !.wd = [k \in DOMAIN @ \cup {id} |-> IF k = id THEN w ELSE @[k]]]
-
-(***************************************************************************)
-(* Tax (C03/C20).                                                           *)
-(***************************************************************************)
-TaxOf(value, p) ==
-  IF p.taxRate > 0 /\ value > MaxTaxBP
-    THEN LET t == (value \div MaxTaxBP) * p.taxRate IN IF p.maxTax > 0 /\ t > p.maxTax THEN p.maxTax ELSE t
-    ELSE 0
-
-ParamsSafe(p) == p.taxRate < MaxTaxBP /\ p.minDeposit >= Dust /\ p.conf >= 1
-\* what Params.Validate accepts (so that any reachable state can be exported and imported again)
-ParamsImportable(p) == ParamsSafe(p) /\ (IF p.taxRate > 0 THEN p.maxTax > 0 /\ p.maxTax <= 100000000 ELSE p.maxTax = 0)
 
 (***************************************************************************)
 (* MsgNewBlockHashes.  m = [wf, start, hashes, voteOk]                      *)
@@ -99,7 +85,6 @@ NewDeposits(S, m) == IF ~m.wf \/ ~m.pfOk THEN Fail(S) ELSE DepositWalk(S, m.deps
 (* MsgProcessWithdrawal.                                                    *)
 (*  m = [wf, parseOk, ids, outs (Seq [script, value]), fee, size, txid, voteOk] *)
 (***************************************************************************)
-PriceOk(fee, size, maxPrice) == fee <= maxPrice * size       \* fee / size <= maxPrice
 
 RECURSIVE ProcessWalk(_, _, _, _)
 ProcessWalk(S, m, i, values) ==
@@ -230,9 +215,6 @@ CancelWalk(S, cs) ==
        IF w.status = "none" THEN Fail(S)
        ELSE CancelWalk(IF w.status = "pending" THEN SetWd(S, Head(cs), [w EXCEPT !.status = "canceling"]) ELSE S, Tail(cs))
 
-\* a tax request is applied only as a whole and only if the resulting pair is one the module's own validation accepts
-MaxTaxCap == 100000000
-TaxPairOk(rate, max) == rate < MaxTaxBP /\ (IF rate > 0 THEN max > 0 /\ max <= MaxTaxCap ELSE max = 0)
 
 RECURSIVE ParamWalk(_, _, _, _)
 ParamWalk(p, tax, conf, minDep) ==
